@@ -409,6 +409,9 @@ pub enum ImageSpec {
     /// a render looks at it; its size and modification time never change, only its bytes do.
     /// Raster renders only: the path itself is part of the SVG text.
     File(u8),
+    /// the same, named by a path *relative* to the process's working directory (which the C14
+    /// processes set to a directory of their own, different from the one holding `File` logos)
+    RelFile(u8),
     /// `pad` characters of filler (SVG text only; lets a run hit an exact file size)
     Filler(usize),
     /// `n` characters of filler that are 1, 2, 3 or 4 bytes long in UTF-8, mixed so that any
@@ -423,6 +426,7 @@ impl ImageSpec {
             ImageSpec::Png => PNG_1X1.to_string(),
             ImageSpec::Svg => SVG_URI.to_string(),
             ImageSpec::File(_) => logo_path(),
+            ImageSpec::RelFile(_) => rel_logo_name(),
             ImageSpec::Filler(n) => {
                 let mut s = String::with_capacity(*n);
                 for i in 0..*n {
@@ -447,7 +451,7 @@ impl ImageSpec {
     }
     /// Safe to hand to the raster path (usvg must be able to parse the document).
     pub fn raster_safe(&self) -> bool {
-        matches!(self, ImageSpec::Png | ImageSpec::Svg | ImageSpec::File(_))
+        matches!(self, ImageSpec::Png | ImageSpec::Svg | ImageSpec::File(_) | ImageSpec::RelFile(_))
     }
 }
 
@@ -475,6 +479,44 @@ pub fn logo_path() -> String {
         }
         p.clone().unwrap()
     })
+}
+
+fn logo_base() -> String {
+    let base = if std::path::Path::new("/dev/shm").is_dir() { "/dev/shm".to_string() } else { std::env::temp_dir().to_string_lossy().to_string() };
+    format!("{}/fqv-logos-{}", base, std::process::id())
+}
+
+/// Working directory of a C14 process: relative logo names resolve here.
+pub fn enter_logo_cwd() {
+    let dir = format!("{}/rel", logo_base());
+    let _ = std::fs::create_dir_all(&dir);
+    let _ = std::env::set_current_dir(&dir);
+}
+
+/// The calling thread's relative logo name (a bare file name).
+pub fn rel_logo_name() -> String {
+    thread_local! {
+        static NAME: std::cell::RefCell<Option<String>> = const { std::cell::RefCell::new(None) };
+    }
+    NAME.with(|p| {
+        let mut p = p.borrow_mut();
+        if p.is_none() {
+            static N: std::sync::atomic::AtomicU64 = std::sync::atomic::AtomicU64::new(0);
+            *p = Some(format!("rlogo-{}.png", N.fetch_add(1, std::sync::atomic::Ordering::SeqCst)));
+        }
+        p.clone().unwrap()
+    })
+}
+
+/// Like `prepare_logo`, for the relative name (the file lives in the process's working directory).
+pub fn prepare_rel_logo(v: u8) {
+    let path = format!("{}/rel/{}", logo_base(), rel_logo_name());
+    let _ = std::fs::create_dir_all(format!("{}/rel", logo_base()));
+    let _ = std::fs::write(&path, LOGOS[(v % 3) as usize]);
+    if let Ok(f) = std::fs::OpenOptions::new().write(true).open(&path) {
+        let t = std::time::UNIX_EPOCH + std::time::Duration::from_secs(1_577_836_800);
+        let _ = f.set_modified(t);
+    }
 }
 
 /// Makes the calling thread's logo file hold logo `v`, with the same length and the same
